@@ -311,14 +311,22 @@ func runHistOnce(toks []string) (string, bool) {
 	if refresh != 0 && time.Since(tInit) > 1900*time.Millisecond {
 		timely = false // the second tick may have fired
 	}
-	ids := ep.VerifTemplateIDs()
-	idl := make([]string, len(ids))
-	for i, id := range ids {
-		idl[i] = fmt.Sprint(id)
-	}
+	// the template map is read under templateMutex: a mutex that was never released (a failed
+	// refresh used to leave it locked) must show up as an observation, not as a hung harness
+	idc := make(chan []uint16, 1)
+	go func() { idc <- ep.VerifTemplateIDs() }()
 	tp := "-"
-	if len(idl) > 0 {
-		tp = strings.Join(idl, ",")
+	select {
+	case ids := <-idc:
+		idl := make([]string, len(ids))
+		for i, id := range ids {
+			idl[i] = fmt.Sprint(id)
+		}
+		if len(idl) > 0 {
+			tp = strings.Join(idl, ",")
+		}
+	case <-time.After(5 * time.Second):
+		tp = "LOCKED"
 	}
 	seq := ep.VerifSeq()
 	ep.CloseConnToCollector()
